@@ -26,7 +26,7 @@ Section Text.
   Theorem written_text_tokens f td v nxt indent : confb S posrs ftab f td v nxt = true -> Forall token_text (wtoks S posrs ftab f v) ->
     exists toks, tokenize_core 0 (write_node S posrs ftab names f v indent) = TOk toks /\ map shape_of toks = wtoks S posrs ftab f v.
   Proof.
-    intros Hc Ht. destruct (write_units S posrs ftab names f td v nxt indent empty_out Hc) as (us & E & M & W).
+    intros Hc Ht. destruct (write_units S posrs ftab names f td v nxt indent empty_out Hc) as (us & E & M & W & _).
     unfold write_node. rewrite (finish_extends us _ E).
     rewrite <- M in Ht. destruct (tokenize_units 0 us (units_ok us W Ht)) as (toks & E1 & M1 & _).
     exists toks. split; [exact E1|]. rewrite M1. exact M.
@@ -41,7 +41,7 @@ Section Text.
       ps_after s' = [] /\ erase v' = erase (reorder S posrs f v).
   Proof.
     intros HF Hb Hc Ht Htag.
-    destruct (write_units S posrs ftab names f td v None indent empty_out Hc) as (us & E & M & W).
+    destruct (write_units S posrs ftab names f td v None indent empty_out Hc) as (us & E & M & W & _).
     set (sp := [" "%char]).
     assert (Hsp : ws_text sp) by (split; [discriminate | repeat constructor]).
     set (us' := us ++ [(sp, (TEnd, "/"%char :: b_end)); (sp, (TIdentifier, tag))]).
